@@ -256,8 +256,10 @@ def report(prop, a, checks, results, native, seed, t0):
                 if v['verdict'] in ('unknown', 'disagree'):
                     undecided.append(f"{name}: solver verdict {v['verdict']} ({v.get('detail')}, {v.get('all')})")
                     continue
-                # refuted
-                handle_refutation(prop, name, v, known, known_hits, violations, undecided, base_names, replays_dir)
+                # refuted. A failed site of an exhaustive syntactic scan is decided as it stands (no solver involved): it is
+                # reported also when the site - a new method, a new call - does not exist on the pinned tree
+                handle_refutation(prop, name, v, known, known_hits, violations, undecided,
+                                  None if v.get('kind') == 'scan' else base_names, replays_dir)
     # native [F]/[B] checks
     f_cases = f_ok = b_cases = 0
     bounded = []
